@@ -34,11 +34,91 @@ def make_test(sub, one, dbdir, phases, max_examples=1):
     return synverif_fuzz_test
 
 
+def _patch_bytestring_provider():
+    """Hypothesis 6.168's BytestringProvider.draw_integer draws `bits(max-min)` bits and rejects until the raw value
+    lies in [min, max] WITHOUT adding min: every range whose lower bound exceeds its width (integers(250, 262),
+    the swap indices of st.permutations, ...) can never be satisfied and the whole byte string is reported as
+    overrun.  The replacement offsets by min_value; failing inputs are stored as choice sequences, so replay and
+    shrinking by the stock engine are unaffected."""
+    from hypothesis.internal.conjecture.providers import BytestringProvider
+
+    def draw_integer(self, min_value=None, max_value=None, *, weights=None, shrink_towards=0):
+        if min_value is None and max_value is None:
+            min_value, max_value = -(2 ** 127), 2 ** 127 - 1
+        elif min_value is None:
+            min_value = max_value - 2 ** 64
+        elif max_value is None:
+            max_value = min_value + 2 ** 64
+        if min_value == max_value:
+            return min_value
+        span = max_value - min_value
+        bits = span.bit_length()
+        v = self._draw_bits(bits)
+        while v > span:
+            v = self._draw_bits(bits)
+        return min_value + v
+
+    BytestringProvider.draw_integer = draw_integer
+
+
+def shrink_main(argv):
+    """python -m synverif.fuzzchild --shrink <ID> <subcheck> <workdir> <known-sigs-json>
+    replays the failing byte string(s) the fuzz run saved in <workdir>/db through the ordinary Hypothesis engine
+    (reuse + shrink) and writes the minimal failing case to <workdir>/fail.json"""
+    prop_id, sub_name, work, known_json = argv[:4]
+    known = set(json.loads(known_json))
+    import importlib
+
+    from hypothesis import Phase
+
+    from . import env
+    from .core import Rec, Violation, _flaky_violation, jsonable, signature
+    mod = importlib.import_module(f"synverif.props.{prop_id.lower()}")
+    sub = [s for s in mod.subchecks() if s.name == sub_name][0]
+    state = {"last_fail": None}
+
+    def one(case):
+        try:
+            env.reset_global_modes()
+            sub.check(case, Rec())
+        except Violation as v:
+            sig = signature(sub.name, v)
+            if sig in known:
+                return
+            state["last_fail"] = {"sig": sig, "kind": v.kind, "detail": v.detail[:2000], "case": jsonable(case)}
+            raise
+
+    test = make_test(sub, one, os.path.join(work, "db"), (Phase.reuse, Phase.shrink))
+    found = {}
+    try:
+        test()
+    except Violation:
+        f = state["last_fail"]
+        found[f["sig"]] = f
+    except Exception as e:  # noqa: BLE001
+        if not _flaky_violation(e, state, found):
+            raise
+    with open(os.path.join(work, "fail.json"), "w") as fh:
+        json.dump(list(found.values()), fh)
+    return 0
+
+
 def main(argv):
+    if argv and argv[0] == "--shrink":
+        return shrink_main(argv[1:])
     prop_id, sub_name, work, execs, seconds, seed, known_json = argv[:7]
     execs, seconds, seed = int(execs), float(seconds), int(seed)
     known = set(json.loads(known_json))
     os.makedirs(os.path.join(work, "corpus"), exist_ok=True)
+    # starting corpus: byte strings long enough for the strategy to complete (from an empty corpus libFuzzer spends its
+    # budget on inputs that are too short to decode), a pure function of the seed: the all-zero string (= the
+    # strategy's simplest case) and pseudo-random strings of several lengths
+    import random
+    rnd = random.Random(seed)
+    blobs = [bytes(8192)] + [rnd.randbytes(n) for n in (256, 1024, 1024, 4096, 4096, 8192, 8192)]
+    for i, b in enumerate(blobs):
+        with open(os.path.join(work, "corpus", f"seed{i}"), "wb") as fh:
+            fh.write(b)
     import atheris
 
     with atheris.instrument_imports(include=["synapgrad"], enable_loader_override=False):
@@ -83,6 +163,7 @@ def main(argv):
             if rec.nt:
                 st["nt"].add(case_hash(case))
 
+    _patch_bytestring_provider()
     test = make_test(sub, one, os.path.join(work, "db"), (Phase.generate,))
     fuzz = test.hypothesis.fuzz_one_input
     calls = {"n": 0}
